@@ -61,6 +61,21 @@ fn judge(run: &mut Run, family: &str, form: &str, e: &E, env: &mut Env, ctx: &ce
     }
 }
 
+/// the value stored under the p-th selected key: falsy values of every kind next to truthy ones
+/// (presence of a key does not depend on what it holds)
+fn entry_value(p: usize) -> MV {
+    match p % 8 {
+        0 => MV::Int(0),
+        1 => MV::Int(11),
+        2 => MV::s(""),
+        3 => MV::Bool(false),
+        4 => MV::List(vec![]),
+        5 => MV::Map(vec![]),
+        6 => MV::f(0.0),
+        _ => MV::Uint(0),
+    }
+}
+
 pub fn run(run: &mut Run) {
     let ks = keys12();
     let mut queries: Vec<MK> = ks.clone();
@@ -83,7 +98,7 @@ pub fn run(run: &mut Run) {
         if twin_clash {
             continue;
         }
-        let entries: Vec<(MK, MV)> = sel.iter().enumerate().map(|(p, &i)| (ks[i].clone(), MV::Int(10 + p as i64))).collect();
+        let entries: Vec<(MK, MV)> = sel.iter().enumerate().map(|(p, &i)| (ks[i].clone(), entry_value(p))).collect();
         let mut sorted = entries.clone();
         sorted.sort();
         let mval = MV::Map(sorted);
